@@ -59,6 +59,12 @@ View == <<regs, in, rph, bad,
           dev.open, Age(dev.tAct[0]), Age(dev.tPre[0]), Age(dev.tWrE[0]), Age(dev.tRef[0])>>    \* tCCD/tWTR are not required here (multiplexer's job)
 
 Legal == bad = {}
+\* ---- refinement: every step of the design is a step of the abstract bank machine used in the composition MC_MuxRef
+Abs == INSTANCE A_BankMachine
+absB == IF fsm \in {"REGULAR", "TRCD"} THEN "REG" ELSE IF fsm = "PRECHARGE" THEN "PRE" ELSE IF fsm = "REFRESH" THEN "REF" ELSE "ACT"
+absK == IF inRegularIssue THEN (IF buf.we THEN "WR" ELSE "RD") ELSE IF prechargeIssue THEN "PRE" ELSE IF activateIssue THEN "ACT" ELSE "NONE"
+absO == fsm \in {"REGULAR", "TRCD"} /\ rowOpened
+RefinesAbstractBm == [][Abs!Step(absB, absK, absO, refGnt, accept, in.refreq, absB', absK', absO', refGnt', in'.refreq, TRUE)]_mvars
 \* vacuity guards (negated cover goals are checked in separate configs)
 CoverAutoPrecharge == ~(fsm = "AUTOPRECHARGE")
 CoverRefreshWhileOpen == ~(fsm = "REFRESH" /\ ~trasR)
